@@ -207,6 +207,31 @@ def denB (env : Env) (cur : Option Exc) (inAct : Bool) : Block → DS → Fields
     | _ => r
 end
 
+end Sys.Emit
+
+/-! ## The structured fragment (shape only) -/
+namespace Sys
+mutual
+/-- `inH` = inside an `except` handler (so `write_traceback()` has an exception), `inAct` = inside
+an action (so `add_success_fields` has a current action) -/
+def Stmt.structured (inH inAct : Bool) : Stmt → Bool
+  | .withAction _ _ body => body.structured inH true
+  | .log _ => true
+  | .raise _ => true
+  | .tryCatch body handler => body.structured inH inAct && handler.structured true inAct
+  | .writeTraceback => inH
+  | .addSuccess none _ => inAct
+  | .probe _ => true
+  | _ => false
+def Block.structured (inH inAct : Bool) : Block → Bool
+  | .nil => true
+  | .cons s r => s.structured inH inAct && r.structured inH inAct
+end
+end Sys
+
+namespace Sys.Emit
+open Sys Sys.C04
+
 /-! ## Effects of the primitives under the fragment's hypotheses -/
 
 /-- serializers are functions that do not raise, no exception extractor is registered, the
@@ -329,11 +354,9 @@ theorem firstExtractor_none {env : Env} (h : ∀ c, env.extractor c = none) (l :
   | nil => rfl
   | cons c cs ih => simp [firstExtractor, h, ih]
 
-theorem getFields_none {env : Env} (h : ∀ c, env.extractor c = none) (fuel : Nat) (w : World) (e : Exc) :
-    World.getFields env fuel w e = (w, []) := by
-  cases fuel with
-  | zero => rfl
-  | succ n => simp [World.getFields, firstExtractor_none h]
+theorem getFields_none {env : Env} (h : ∀ c, env.extractor c = none) (w : World) (e : Exc) :
+    World.getFields env w e = (w, []) := by
+  simp [World.getFields, firstExtractor_none h]
 
 theorem lt_of_get {w : World} {h : Nat} {a : Act} (ha : w.acts[h]? = some a) : h < w.acts.length := by
   rcases Nat.lt_or_ge h w.acts.length with hl | hl
@@ -552,23 +575,26 @@ theorem run_action {env : Env} {σ : Nat → FV → FV} {ds : List Nat} (H : Env
   | mk Wb ob =>
   rw [hrun] at post hout
   simp only at post hout
-  have hW2 : W2 = World.finishRec env ({ Wb with ctx := W1.ctx } : World) A.length (outcomeExc rb.out) := by
-    simp only [W2, withBlock, hrun, hout, rb]
+  obtain ⟨Wf, hWf⟩ : ∃ Wf : World, Wf = { Wb with ctx := W1.ctx } := ⟨_, rfl⟩
+  have hfa : Wf.acts = Wb.acts := by rw [hWf]
+  have hfs : Wf.stage = Wb.stage := by rw [hWf]
+  have hft : Wf.tick = Wb.tick := by rw [hWf]
+  have hfn : Wf.nextUuid = Wb.nextUuid := by rw [hWf]
+  have hfc : Wf.ctx = W1.ctx := by rw [hWf]
+  have hfw : WOK Wf ds := ⟨by rw [hWf]; exact post.wok.dests, by rw [hWf]; exact post.wok.globals⟩
+  have hW2 : W2 = World.finishRec env Wf A.length (outcomeExc rb.out) := by
+    simp only [W2, withBlock, hrun, hout, rb, hWf]
   have e1 : 1 + rb.f.len + 1 = rb.f.len + 2 := by omega
-  have e : Eff ({ Wb with ctx := W1.ctx } : World) W2 (Wb.acts.set A.length { i'.act (1 + rb.f.len) rb.s with finished := true, last := 1 + rb.f.len + 1 }) 1 0
+  have e : Eff Wf W2 (Wb.acts.set A.length { i'.act (1 + rb.f.len) rb.s with finished := true, last := 1 + rb.f.len + 1 }) 1 0
       [endDict env σ i'.uuid (i'.level ++ [rb.f.len + 2]) rb.ds.tick i'.atype i'.sers rb.s rb.out] := by
-    have := eff_finish H ({ Wb with ctx := W1.ctx } : World) ⟨post.wok.dests, post.wok.globals⟩ A.length
-      (i'.act (1 + rb.f.len) rb.s) post.good rfl rb.out hns hps
-    rw [← hW2] at this
-    have ht' : ({ Wb with ctx := W1.ctx } : World).tick = rb.ds.tick := post.tick
-    rw [ht'] at this
+    have := eff_finish H Wf hfw A.length (i'.act (1 + rb.f.len) rb.s) (by rw [hfa]; exact post.good) rfl rb.out hns hps
+    rw [← hW2, hft, post.tick, hfa] at this
     simpa only [AI.act, e1] using this
   have hlen : (A ++ [i'.act 1 []]).length = A.length + 1 := by simp
-  refine ⟨?_, ?_, ?_, e.ctx, ?_, ?_, WOK.ofEff ⟨post.wok.dests, post.wok.globals⟩ e, ?_, hns⟩
-  · rw [e.stage]
-    have : ({ Wb with ctx := W1.ctx } : World).stage = Wb.stage := rfl
-    rw [this, post.stage]
-    simp [List.append_assoc]
+  refine ⟨?_, ?_, ?_, e.ctx.trans hfc, ?_, ?_, WOK.ofEff hfw e, ?_, hns⟩
+  · rw [e.stage, hfs, post.stage]
+    simp only [List.append_assoc]
+    rfl
   · intro h hh
     rw [e.acts, List.getElem?_set_ne (by omega)]
     have := post.frame h (by simp only [hA, hlen]; omega) (by omega)
@@ -578,28 +604,488 @@ theorem run_action {env : Env} {σ : Nat → FV → FV} {ds : List Nat} (H : Env
     have := post.grow
     simp only [hA, hlen] at this
     exact this
-  · rw [e.tick]; exact congrArg (· + 1) post.tick
-  · rw [e.nu]; exact post.nu
+  · rw [e.tick, hft]; exact congrArg (· + 1) post.tick
+  · rw [e.nu, hfn]; exact post.nu
   · simp only [withBlock, hrun, hout, rb]
 
-end Sys.Emit
+/-- one message logged in the current action -/
+theorem post_leaf {env : Env} {σ : Nat → FV → FV} {ds : List Nat} {w w' : World} {c : Nat} {i : AI} {n : Nat} {s : Fields} {d : DS}
+    (pre : Pre ds w c i n s d) (ms : MSpec)
+    (e : Eff w w' (w.acts.set c { i.act n s with last := (i.act n s).last + 1 }) 1 0
+      [leafDict σ (i.act n s).uuid ((i.act n s).level ++ [(i.act n s).last + 1]) w.tick ms]) :
+    Post env σ ds w w' c i n (leafR false d s ms) := by
+  have hlt := lt_of_get pre.good
+  refine ⟨?_, ?_, ?_, ?_, e.ctx, ?_, ?_, pre.wok.ofEff e⟩
+  · rw [e.stage, pre.tick]; simp [leafR, F.dicts, T.dicts, AI.act]
+  · rw [e.acts, List.getElem?_set_self hlt]; simp [leafR, F.len, AI.act]
+  · intro h _ hne; rw [e.acts, List.getElem?_set_ne (Ne.symm hne)]
+  · rw [e.acts, List.length_set]; exact Nat.le_refl _
+  · rw [e.tick, pre.tick]; rfl
+  · rw [e.nu, pre.nu]; rfl
 
-/-! ## The structured fragment (shape only) -/
-namespace Sys
+theorem denS_with (env : Env) (cur : Option Exc) (inAct task : Bool) (sp : Spec) (body : Block) (d : DS) (s : Fields) :
+    denS env cur inAct (.withAction task sp body) d s =
+      { f := if (task || !inAct) = true then
+              .sep d.nu (T.node sp d.tick
+                (denB env cur true body { tick := d.tick + 1, nu := if (task || !inAct) = true then d.nu + 1 else d.nu } []).ds.tick
+                (denB env cur true body { tick := d.tick + 1, nu := if (task || !inAct) = true then d.nu + 1 else d.nu } []).s
+                (denB env cur true body { tick := d.tick + 1, nu := if (task || !inAct) = true then d.nu + 1 else d.nu } []).out
+                (denB env cur true body { tick := d.tick + 1, nu := if (task || !inAct) = true then d.nu + 1 else d.nu } []).f) .nil
+            else
+              .own (T.node sp d.tick
+                (denB env cur true body { tick := d.tick + 1, nu := if (task || !inAct) = true then d.nu + 1 else d.nu } []).ds.tick
+                (denB env cur true body { tick := d.tick + 1, nu := if (task || !inAct) = true then d.nu + 1 else d.nu } []).s
+                (denB env cur true body { tick := d.tick + 1, nu := if (task || !inAct) = true then d.nu + 1 else d.nu } []).out
+                (denB env cur true body { tick := d.tick + 1, nu := if (task || !inAct) = true then d.nu + 1 else d.nu } []).f) .nil,
+        out := (denB env cur true body { tick := d.tick + 1, nu := if (task || !inAct) = true then d.nu + 1 else d.nu } []).out,
+        s := s,
+        ds := { tick := (denB env cur true body { tick := d.tick + 1, nu := if (task || !inAct) = true then d.nu + 1 else d.nu } []).ds.tick + 1,
+                nu := (denB env cur true body { tick := d.tick + 1, nu := if (task || !inAct) = true then d.nu + 1 else d.nu } []).ds.nu },
+        wf := presentOpt (sp.sers.map (·.1)) sp.fields &&
+          (denB env cur true body { tick := d.tick + 1, nu := if (task || !inAct) = true then d.nu + 1 else d.nu } []).wf &&
+          (match (denB env cur true body { tick := d.tick + 1, nu := if (task || !inAct) = true then d.nu + 1 else d.nu } []).out with
+           | .ok => presentOpt (sp.sers.map (·.2))
+              (denB env cur true body { tick := d.tick + 1, nu := if (task || !inAct) = true then d.nu + 1 else d.nu } []).s
+           | _ => true) } := by
+  simp only [denS]
+
+theorem denS_try (env : Env) (cur : Option Exc) (inAct : Bool) (body handler : Block) (d : DS) (s : Fields) :
+    denS env cur inAct (.tryCatch body handler) d s =
+      match (denB env cur inAct body d s).out with
+      | .raised e =>
+        { f := (denB env cur inAct body d s).f.append
+            (denB env (some e) inAct handler (denB env cur inAct body d s).ds (denB env cur inAct body d s).s).f,
+          out := (denB env (some e) inAct handler (denB env cur inAct body d s).ds (denB env cur inAct body d s).s).out,
+          s := (denB env (some e) inAct handler (denB env cur inAct body d s).ds (denB env cur inAct body d s).s).s,
+          ds := (denB env (some e) inAct handler (denB env cur inAct body d s).ds (denB env cur inAct body d s).s).ds,
+          wf := (denB env cur inAct body d s).wf &&
+            (denB env (some e) inAct handler (denB env cur inAct body d s).ds (denB env cur inAct body d s).s).wf }
+      | _ => denB env cur inAct body d s := by
+  simp only [denS]
+
+theorem denB_cons (env : Env) (cur : Option Exc) (inAct : Bool) (st : Stmt) (rest : Block) (d : DS) (s : Fields) :
+    denB env cur inAct (.cons st rest) d s =
+      match (denS env cur inAct st d s).out with
+      | .ok =>
+        { f := (denS env cur inAct st d s).f.append
+            (denB env cur inAct rest (denS env cur inAct st d s).ds (denS env cur inAct st d s).s).f,
+          out := (denB env cur inAct rest (denS env cur inAct st d s).ds (denS env cur inAct st d s).s).out,
+          s := (denB env cur inAct rest (denS env cur inAct st d s).ds (denS env cur inAct st d s).s).s,
+          ds := (denB env cur inAct rest (denS env cur inAct st d s).ds (denS env cur inAct st d s).s).ds,
+          wf := (denS env cur inAct st d s).wf &&
+            (denB env cur inAct rest (denS env cur inAct st d s).ds (denS env cur inAct st d s).s).wf }
+      | _ => denS env cur inAct st d s := by
+  simp only [denB]
+
+theorem execS_with_eq (env : Env) (cur : Option Exc) (w : World) (task : Bool) (sp : Spec) (body : Block) :
+    execS env cur w (.withAction task sp body) =
+      withBlock env (w.startAction env task sp).1 (w.startAction env task sp).2 (fun w' => execB env cur w' body) := by
+  simp only [execS]
+
+/-- `with start_action(..)/start_task(..): body` inside an action -/
+theorem emits_with {env : Env} {σ : Nat → FV → FV} {ds : List Nat} (H : EnvOK env σ ds) (cur : Option Exc) (task : Bool)
+    (sp : Spec) (body : Block) (hb : Emits env σ ds (fun w => execB env cur w body) (denB env cur true body)) :
+    Emits env σ ds (fun w => execS env cur w (.withAction task sp body)) (denS env cur true (.withAction task sp body)) := by
+  intro w c i n s d pre hwf
+  have hlt := lt_of_get pre.good
+  rw [denS_with] at hwf ⊢
+  simp only [execS_with_eq]
+  cases task with
+  | false =>
+    simp only [Bool.not_true, Bool.or_self, Bool.false_eq_true, if_false, Bool.and_eq_true] at hwf ⊢
+    obtain ⟨⟨hp1, hwf2⟩, hps⟩ := hwf
+    obtain ⟨hh, e⟩ := eff_start_child H w pre.wok c (i.act n s) pre.ctx pre.good sp hp1
+    cases hst : w.startAction env false sp with
+    | mk W1 h =>
+    rw [hst] at hh e
+    simp only at hh e
+    subst hh
+    have hAl : (w.acts.set c { i.act n s with last := (i.act n s).last + 1 }).length = w.acts.length := List.length_set
+    have ra := run_action H hb W1 (w.acts.set c { i.act n s with last := (i.act n s).last + 1 })
+      { uuid := i.uuid, level := i.level ++ [n + 1], atype := sp.atype, sers := sp.sers } { tick := d.tick + 1, nu := d.nu }
+      (pre.wok.ofEff e) e.acts (by rw [e.tick, pre.tick]) (by rw [e.nu, pre.nu]; rfl) hwf2
+      (fun ho => by simpa [ho] using hps)
+    rw [hAl] at ra
+    obtain ⟨r1, r2, r3, r4, r5, r6, r7, r8, r9⟩ := ra
+    refine ⟨⟨?_, ?_, ?_, ?_, r4.trans e.ctx, r5, r6, r7⟩, r8, r9⟩
+    · rw [r1, e.stage, pre.tick]
+      simp [F.dicts, T.dicts, AI.act, List.append_assoc]
+    · rw [r2 c hlt, List.getElem?_set_self hlt]
+      simp [F.len, AI.act]
+    · intro h hh hne
+      rw [r2 h hh, List.getElem?_set_ne (Ne.symm hne)]
+    · exact Nat.le_of_succ_le r3
+  | true =>
+    simp only [Bool.true_or, if_true, Bool.and_eq_true] at hwf ⊢
+    obtain ⟨⟨hp1, hwf2⟩, hps⟩ := hwf
+    obtain ⟨hh, e⟩ := eff_start_fresh H w pre.wok true (Or.inl rfl) sp hp1
+    cases hst : w.startAction env true sp with
+    | mk W1 h =>
+    rw [hst] at hh e
+    simp only at hh e
+    subst hh
+    have ra := run_action H hb W1 w.acts
+      { uuid := w.nextUuid, level := [], atype := sp.atype, sers := sp.sers } { tick := d.tick + 1, nu := d.nu + 1 }
+      (pre.wok.ofEff e) e.acts (by rw [e.tick, pre.tick]) (by rw [e.nu, pre.nu]) hwf2
+      (fun ho => by simpa [ho] using hps)
+    obtain ⟨r1, r2, r3, r4, r5, r6, r7, r8, r9⟩ := ra
+    refine ⟨⟨?_, ?_, ?_, ?_, r4.trans e.ctx, r5, r6, r7⟩, r8, r9⟩
+    · rw [r1, e.stage, pre.tick, pre.nu]
+      simp [F.dicts, T.dicts, T.rootLevel, List.append_assoc]
+    · rw [r2 c hlt]
+      simpa [F.len] using pre.good
+    · intro h hh _
+      rw [r2 h hh]
+    · exact Nat.le_of_succ_le r3
+
+/-- sequencing: `first` ran to a normal end, then `second` -/
+theorem emits_seq {env : Env} {σ : Nat → FV → FV} {ds : List Nat} {w w1 : World} {c : Nat} {i : AI} {n : Nat} {r1 : R}
+    {run2 : World → World × Outcome} {den2 : DS → Fields → R} (hc : w.ctx = some c)
+    (p1 : Post env σ ds w w1 c i n r1) (h2 : Emits env σ ds run2 den2) (b : Bool) (hwf2 : (den2 r1.ds r1.s).wf = true) :
+    Post env σ ds w (run2 w1).1 c i n
+      { f := r1.f.append (den2 r1.ds r1.s).f, out := (den2 r1.ds r1.s).out, s := (den2 r1.ds r1.s).s,
+        ds := (den2 r1.ds r1.s).ds, wf := b } ∧
+    (run2 w1).2 = (den2 r1.ds r1.s).out ∧ (den2 r1.ds r1.s).out ≠ .stuck := by
+  obtain ⟨p2, o2, n2⟩ := h2 w1 c i (n + r1.f.len) r1.s r1.ds (p1.pre hc) hwf2
+  exact ⟨Post.trans' p1 p2 b, o2, n2⟩
+
 mutual
-/-- `inH` = inside an `except` handler (so `write_traceback()` has an exception), `inAct` = inside
-an action (so `add_success_fields` has a current action) -/
-def Stmt.structured (inH inAct : Bool) : Stmt → Bool
-  | .withAction _ _ body => body.structured inH true
-  | .log _ => true
-  | .raise _ => true
-  | .tryCatch body handler => body.structured inH inAct && handler.structured true inAct
-  | .writeTraceback => inH
-  | .addSuccess none _ => inAct
-  | .probe _ => true
-  | _ => false
-def Block.structured (inH inAct : Bool) : Block → Bool
-  | .nil => true
-  | .cons s r => s.structured inH inAct && r.structured inH inAct
+/-- **Emission lemma**, statements. -/
+theorem execS_emits {env : Env} {σ : Nat → FV → FV} {ds : List Nat} (H : EnvOK env σ ds) (cur : Option Exc) (inH : Bool)
+    (hcur : inH = true → cur.isSome = true) (st : Stmt) (hs : st.structured inH true = true) :
+    Emits env σ ds (fun w => execS env cur w st) (denS env cur true st) := by
+  cases st with
+  | withAction task sp body =>
+    exact emits_with H cur task sp body (execB_emits H cur inH hcur body (by simpa [Stmt.structured] using hs))
+  | log ms =>
+    intro w c i n s d pre hwf
+    have hd : denS env cur true (.log ms) d s = leafR false d s ms := by simp only [denS]; rfl
+    rw [hd] at hwf ⊢
+    have e := eff_log_in H w pre.wok c (i.act n s) pre.ctx pre.good ms (by simpa [leafR] using hwf)
+    exact ⟨by simpa only [execS] using post_leaf pre ms e, by simp [execS, leafR], by simp [leafR]⟩
+  | raise k =>
+    intro w c i n s d pre _
+    have hd : denS env cur true (.raise k) d s = { f := .nil, out := .raised (.user k), s := s, ds := d, wf := true } := by
+      simp only [denS]
+    rw [hd]
+    exact ⟨by simpa only [execS] using Post.same pre rfl rfl rfl rfl rfl rfl rfl _ _, by simp [execS], by simp⟩
+  | tryCatch body handler =>
+    intro w c i n s d pre hwf
+    simp only [Stmt.structured, Bool.and_eq_true] at hs
+    obtain ⟨p1, o1, n1⟩ := execB_emits H cur inH hcur body hs.1 w c i n s d pre (by
+      rw [denS_try] at hwf
+      cases ho : (denB env cur true body d s).out <;> simp only [ho, Bool.and_eq_true] at hwf
+      · exact hwf
+      · exact hwf.1
+      · exact hwf)
+    rw [denS_try] at hwf ⊢
+    simp only [execS]
+    cases hb : execB env cur w body with
+    | mk w1 ob =>
+    dsimp only at p1 o1
+    rw [hb] at p1 o1
+    dsimp only at p1 o1
+    cases ho : (denB env cur true body d s).out with
+    | ok =>
+      rw [ho] at o1; subst o1
+      simp only [ho]
+      refine ⟨p1, ?_, ?_⟩ <;> simp
+    | stuck => exact absurd ho n1
+    | raised e =>
+      rw [ho] at o1; subst o1
+      simp only [ho, Bool.and_eq_true] at hwf ⊢
+      exact emits_seq pre.ctx p1 (execB_emits H (some e) true (fun _ => rfl) handler hs.2) _ hwf.2
+  | writeTraceback =>
+    intro w c i n s d pre hwf
+    simp only [Stmt.structured] at hs
+    cases cur with
+    | none => simp at hcur; exact absurd hs (by simp [hcur])
+    | some e =>
+      have hd : denS env (some e) true .writeTraceback d s = leafR false d s (tbSpec env e) := by simp only [denS]; rfl
+      rw [hd]
+      have ee := eff_log_in H w pre.wok c (i.act n s) pre.ctx pre.good (tbSpec env e) rfl
+      rw [← writeTraceback_eq H] at ee
+      exact ⟨by simpa only [execS] using post_leaf pre (tbSpec env e) ee, by simp [execS, leafR], by simp [leafR]⟩
+  | addSuccess x fs =>
+    cases x with
+    | some x => simp [Stmt.structured] at hs
+    | none =>
+      intro w c i n s d pre _
+      have hlt := lt_of_get pre.good
+      have hd : denS env cur true (.addSuccess none fs) d s = { f := .nil, out := .ok, s := s.update fs, ds := d, wf := true } := by
+        simp only [denS]
+      rw [hd]
+      simp only [execS, pre.ctx, pre.good]
+      refine ⟨⟨by simp [F.dicts], ?_, ?_, by simp, pre.ctx.symm, pre.tick, pre.nu, ⟨pre.wok.dests, pre.wok.globals⟩⟩, by simp, by simp⟩
+      · simp [List.getElem?_set_self hlt, F.len, AI.act]
+      · intro h _ hne
+        simp [List.getElem?_set_ne (Ne.symm hne)]
+  | probe k =>
+    intro w c i n s d pre _
+    have hd : denS env cur true (.probe k) d s = { f := .nil, out := .ok, s := s, ds := d, wf := true } := by
+      simp only [denS]
+    rw [hd]
+    simp only [execS]
+    refine ⟨?_, by simp, by simp⟩
+    refine Post.same pre ?_ ?_ ?_ ?_ ?_ ?_ ?_ _ _ <;> rfl
+  | startAs x task sp => simp [Stmt.structured] at hs
+  | withHandle x body => simp [Stmt.structured] at hs
+  | inContext x body => simp [Stmt.structured] at hs
+  | runIn x body => simp [Stmt.structured] at hs
+  | finish x exc => simp [Stmt.structured] at hs
+  | logTo x ms => simp [Stmt.structured] at hs
+  | serializeAs y x => simp [Stmt.structured] at hs
+  | continueWith y sp body => simp [Stmt.structured] at hs
+  | addDests l => simp [Stmt.structured] at hs
+  | removeDest x => simp [Stmt.structured] at hs
+  | addGlobals fs => simp [Stmt.structured] at hs
+/-- **Emission lemma**, blocks: a structured block run inside action `c` (uuid `i.uuid`, level
+`i.level`, `n` positions handed out, unfinished) stages exactly `F.dicts … (n+1)` of its
+denotation, advances the action's counter by the number of direct items, leaves every other
+existing action alone, restores the context, and ends with the denotation's outcome. -/
+theorem execB_emits {env : Env} {σ : Nat → FV → FV} {ds : List Nat} (H : EnvOK env σ ds) (cur : Option Exc) (inH : Bool)
+    (hcur : inH = true → cur.isSome = true) (b : Block) (hs : b.structured inH true = true) :
+    Emits env σ ds (fun w => execB env cur w b) (denB env cur true b) := by
+  cases b with
+  | nil =>
+    intro w c i n s d pre _
+    have hd : denB env cur true .nil d s = { f := .nil, out := .ok, s := s, ds := d, wf := true } := by simp only [denB]
+    rw [hd]
+    exact ⟨by simpa only [execB] using Post.same pre rfl rfl rfl rfl rfl rfl rfl _ _, by simp [execB], by simp⟩
+  | cons st rest =>
+    intro w c i n s d pre hwf
+    simp only [Block.structured, Bool.and_eq_true] at hs
+    obtain ⟨p1, o1, n1⟩ := execS_emits H cur inH hcur st hs.1 w c i n s d pre (by
+      rw [denB_cons] at hwf
+      cases ho : (denS env cur true st d s).out <;> simp only [ho, Bool.and_eq_true] at hwf
+      · exact hwf.1
+      · exact hwf
+      · exact hwf)
+    rw [denB_cons] at hwf ⊢
+    simp only [execB]
+    cases hb : execS env cur w st with
+    | mk w1 ob =>
+    dsimp only at p1 o1
+    rw [hb] at p1 o1
+    dsimp only at p1 o1
+    cases ho : (denS env cur true st d s).out with
+    | ok =>
+      rw [ho] at o1; subst o1
+      simp only [ho, Bool.and_eq_true] at hwf ⊢
+      exact emits_seq pre.ctx p1 (execB_emits H cur inH hcur rest hs.2) _ hwf.2
+    | stuck => exact absurd ho n1
+    | raised e =>
+      rw [ho] at o1; subst o1
+      simp only [ho]
+      refine ⟨p1, ?_, ?_⟩ <;> simp
 end
-end Sys
+
+/-! ## Outside any action -/
+
+structure PreT (ds : List Nat) (w : World) (d : DS) : Prop where
+  wok : WOK w ds
+  ctx : w.ctx = none
+  tick : w.tick = d.tick
+  nu : w.nextUuid = d.nu
+
+/-- after running something whose denotation is `r` outside any action: only separate trees -/
+structure PostT (env : Env) (σ : Nat → FV → FV) (ds : List Nat) (w w' : World) (r : R) : Prop where
+  stage : w'.stage = w.stage ++ F.dicts env σ 0 r.f [] 0
+  flat : r.f.len = 0
+  frame : ∀ h, h < w.acts.length → w'.acts[h]? = w.acts[h]?
+  grow : w.acts.length ≤ w'.acts.length
+  ctx : w'.ctx = w.ctx
+  tick : w'.tick = r.ds.tick
+  nu : w'.nextUuid = r.ds.nu
+  wok : WOK w' ds
+
+def EmitsT (env : Env) (σ : Nat → FV → FV) (ds : List Nat) (run : World → World × Outcome) (den : DS → Fields → R) : Prop :=
+  ∀ (w : World) (s : Fields) (d : DS), PreT ds w d → (den d s).wf = true →
+    PostT env σ ds w (run w).1 (den d s) ∧ (run w).2 = (den d s).out ∧ (den d s).out ≠ .stuck
+
+theorem PostT.pre {env : Env} {σ : Nat → FV → FV} {ds : List Nat} {w w' : World} {r : R}
+    (p : PostT env σ ds w w' r) (hc : w.ctx = none) : PreT ds w' r.ds :=
+  ⟨p.wok, p.ctx.trans hc, p.tick, p.nu⟩
+
+theorem PostT.trans' {env : Env} {σ : Nat → FV → FV} {ds : List Nat} {w w1 w2 : World}
+    {r1 r2 : R} (h1 : PostT env σ ds w w1 r1) (h2 : PostT env σ ds w1 w2 r2) (b : Bool) :
+    PostT env σ ds w w2 { f := r1.f.append r2.f, out := r2.out, s := r2.s, ds := r2.ds, wf := b } := by
+  refine ⟨?_, by rw [F.len_append, h1.flat, h2.flat], ?_, Nat.le_trans h1.grow h2.grow, h2.ctx.trans h1.ctx, h2.tick, h2.nu, h2.wok⟩
+  · rw [h2.stage, h1.stage, F.dicts_append, List.append_assoc, h1.flat]
+  · intro h hh
+    rw [h2.frame h (Nat.lt_of_lt_of_le hh h1.grow), h1.frame h hh]
+
+theorem PostT.same {env : Env} {σ : Nat → FV → FV} {ds : List Nat} {w w' : World} {s : Fields} {d : DS}
+    (pre : PreT ds w d) (ha : w'.acts = w.acts) (hs : w'.stage = w.stage) (hc : w'.ctx = w.ctx) (ht : w'.tick = w.tick)
+    (hn : w'.nextUuid = w.nextUuid) (hd : w'.dests = w.dests) (hg : w'.globals = w.globals) (o : Outcome) (b : Bool) :
+    PostT env σ ds w w' { f := .nil, out := o, s := s, ds := d, wf := b } :=
+  ⟨by simp [F.dicts, hs], rfl, fun h _ => by rw [ha], Nat.le_of_eq (by rw [ha]), hc, ht.trans pre.tick,
+   hn.trans pre.nu, ⟨by rw [hd]; exact pre.wok.dests, by rw [hg]; exact pre.wok.globals⟩⟩
+
+theorem emitsT_seq {env : Env} {σ : Nat → FV → FV} {ds : List Nat} {w w1 : World} {r1 : R}
+    {run2 : World → World × Outcome} {den2 : DS → Fields → R} (hc : w.ctx = none)
+    (p1 : PostT env σ ds w w1 r1) (h2 : EmitsT env σ ds run2 den2) (b : Bool) (hwf2 : (den2 r1.ds r1.s).wf = true) :
+    PostT env σ ds w (run2 w1).1
+      { f := r1.f.append (den2 r1.ds r1.s).f, out := (den2 r1.ds r1.s).out, s := (den2 r1.ds r1.s).s,
+        ds := (den2 r1.ds r1.s).ds, wf := b } ∧
+    (run2 w1).2 = (den2 r1.ds r1.s).out ∧ (den2 r1.ds r1.s).out ≠ .stuck := by
+  obtain ⟨p2, o2, n2⟩ := h2 w1 r1.s r1.ds (p1.pre hc) hwf2
+  exact ⟨PostT.trans' p1 p2 b, o2, n2⟩
+
+/-- a message logged outside any action -/
+theorem postT_leaf {env : Env} {σ : Nat → FV → FV} {ds : List Nat} {w w' : World} {s : Fields} {d : DS}
+    (pre : PreT ds w d) (ms : MSpec)
+    (e : Eff w w' (w.acts ++ [{ uuid := w.nextUuid, level := [], last := 1 }]) 1 1 [leafDict σ w.nextUuid [1] w.tick ms]) :
+    PostT env σ ds w w' (leafR true d s ms) := by
+  refine ⟨?_, rfl, ?_, ?_, e.ctx, ?_, ?_, pre.wok.ofEff e⟩
+  · rw [e.stage, pre.tick, pre.nu]; simp [leafR, F.dicts, T.dicts, T.rootLevel]
+  · intro h hh; rw [e.acts, List.getElem?_append_left hh]
+  · rw [e.acts]; simp
+  · rw [e.tick, pre.tick]; rfl
+  · rw [e.nu, pre.nu]; rfl
+
+/-- `with start_action(..)/start_task(..): body` outside any action: a new tree -/
+theorem emitsT_with {env : Env} {σ : Nat → FV → FV} {ds : List Nat} (H : EnvOK env σ ds) (cur : Option Exc) (task : Bool)
+    (sp : Spec) (body : Block) (hb : Emits env σ ds (fun w => execB env cur w body) (denB env cur true body)) :
+    EmitsT env σ ds (fun w => execS env cur w (.withAction task sp body)) (denS env cur false (.withAction task sp body)) := by
+  intro w s d pre hwf
+  rw [denS_with] at hwf ⊢
+  simp only [execS_with_eq]
+  simp only [Bool.not_false, Bool.or_true, if_true, Bool.and_eq_true] at hwf ⊢
+  obtain ⟨⟨hp1, hwf2⟩, hps⟩ := hwf
+  obtain ⟨hh, e⟩ := eff_start_fresh H w pre.wok task (Or.inr pre.ctx) sp hp1
+  cases hst : w.startAction env task sp with
+  | mk W1 h =>
+  rw [hst] at hh e
+  simp only at hh e
+  subst hh
+  have ra := run_action H hb W1 w.acts
+    { uuid := w.nextUuid, level := [], atype := sp.atype, sers := sp.sers } { tick := d.tick + 1, nu := d.nu + 1 }
+    (pre.wok.ofEff e) e.acts (by rw [e.tick, pre.tick]) (by rw [e.nu, pre.nu]) hwf2
+    (fun ho => by simpa [ho] using hps)
+  obtain ⟨r1, r2, r3, r4, r5, r6, r7, r8, r9⟩ := ra
+  refine ⟨⟨?_, rfl, r2, Nat.le_of_succ_le r3, r4.trans e.ctx, r5, r6, r7⟩, r8, r9⟩
+  rw [r1, e.stage, pre.tick, pre.nu]
+  simp [F.dicts, T.dicts, T.rootLevel, List.append_assoc]
+
+mutual
+theorem execS_top {env : Env} {σ : Nat → FV → FV} {ds : List Nat} (H : EnvOK env σ ds) (cur : Option Exc) (inH : Bool)
+    (hcur : inH = true → cur.isSome = true) (st : Stmt) (hs : st.structured inH false = true) :
+    EmitsT env σ ds (fun w => execS env cur w st) (denS env cur false st) := by
+  cases st with
+  | withAction task sp body =>
+    exact emitsT_with H cur task sp body (execB_emits H cur inH hcur body (by simpa [Stmt.structured] using hs))
+  | log ms =>
+    intro w s d pre hwf
+    have hd : denS env cur false (.log ms) d s = leafR true d s ms := by simp only [denS]; rfl
+    rw [hd] at hwf ⊢
+    have e := eff_log_out H w pre.wok pre.ctx ms (by simpa [leafR] using hwf)
+    exact ⟨by simpa only [execS] using postT_leaf pre ms e, by simp [execS, leafR], by simp [leafR]⟩
+  | raise k =>
+    intro w s d pre _
+    have hd : denS env cur false (.raise k) d s = { f := .nil, out := .raised (.user k), s := s, ds := d, wf := true } := by
+      simp only [denS]
+    rw [hd]
+    simp only [execS]
+    refine ⟨?_, by simp, by simp⟩
+    refine PostT.same pre ?_ ?_ ?_ ?_ ?_ ?_ ?_ _ _ <;> rfl
+  | tryCatch body handler =>
+    intro w s d pre hwf
+    simp only [Stmt.structured, Bool.and_eq_true] at hs
+    obtain ⟨p1, o1, n1⟩ := execB_top H cur inH hcur body hs.1 w s d pre (by
+      rw [denS_try] at hwf
+      cases ho : (denB env cur false body d s).out <;> simp only [ho, Bool.and_eq_true] at hwf
+      · exact hwf
+      · exact hwf.1
+      · exact hwf)
+    rw [denS_try] at hwf ⊢
+    simp only [execS]
+    cases hb : execB env cur w body with
+    | mk w1 ob =>
+    dsimp only at p1 o1
+    rw [hb] at p1 o1
+    dsimp only at p1 o1
+    cases ho : (denB env cur false body d s).out with
+    | ok =>
+      rw [ho] at o1; subst o1
+      simp only [ho]
+      refine ⟨p1, ?_, ?_⟩ <;> simp
+    | stuck => exact absurd ho n1
+    | raised e =>
+      rw [ho] at o1; subst o1
+      simp only [ho, Bool.and_eq_true] at hwf ⊢
+      exact emitsT_seq pre.ctx p1 (execB_top H (some e) true (fun _ => rfl) handler hs.2) _ hwf.2
+  | writeTraceback =>
+    intro w s d pre hwf
+    simp only [Stmt.structured] at hs
+    cases cur with
+    | none => simp at hcur; exact absurd hs (by simp [hcur])
+    | some e =>
+      have hd : denS env (some e) false .writeTraceback d s = leafR true d s (tbSpec env e) := by simp only [denS]; rfl
+      rw [hd]
+      have ee := eff_log_out H w pre.wok pre.ctx (tbSpec env e) rfl
+      rw [← writeTraceback_eq H] at ee
+      exact ⟨by simpa only [execS] using postT_leaf pre (tbSpec env e) ee, by simp [execS, leafR], by simp [leafR]⟩
+  | addSuccess x fs => cases x <;> simp [Stmt.structured] at hs
+  | probe k =>
+    intro w s d pre _
+    have hd : denS env cur false (.probe k) d s = { f := .nil, out := .ok, s := s, ds := d, wf := true } := by
+      simp only [denS]
+    rw [hd]
+    simp only [execS]
+    refine ⟨?_, by simp, by simp⟩
+    refine PostT.same pre ?_ ?_ ?_ ?_ ?_ ?_ ?_ _ _ <;> rfl
+  | startAs x task sp => simp [Stmt.structured] at hs
+  | withHandle x body => simp [Stmt.structured] at hs
+  | inContext x body => simp [Stmt.structured] at hs
+  | runIn x body => simp [Stmt.structured] at hs
+  | finish x exc => simp [Stmt.structured] at hs
+  | logTo x ms => simp [Stmt.structured] at hs
+  | serializeAs y x => simp [Stmt.structured] at hs
+  | continueWith y sp body => simp [Stmt.structured] at hs
+  | addDests l => simp [Stmt.structured] at hs
+  | removeDest x => simp [Stmt.structured] at hs
+  | addGlobals fs => simp [Stmt.structured] at hs
+/-- **Emission lemma, top level**: a structured block run outside any action stages exactly the
+dicts of its denotation — a sequence of separate trees (one per `with` block, one one-message task per
+message), each emitted in place — creates only new actions, and leaves the context empty. -/
+theorem execB_top {env : Env} {σ : Nat → FV → FV} {ds : List Nat} (H : EnvOK env σ ds) (cur : Option Exc) (inH : Bool)
+    (hcur : inH = true → cur.isSome = true) (b : Block) (hs : b.structured inH false = true) :
+    EmitsT env σ ds (fun w => execB env cur w b) (denB env cur false b) := by
+  cases b with
+  | nil =>
+    intro w s d pre _
+    have hd : denB env cur false .nil d s = { f := .nil, out := .ok, s := s, ds := d, wf := true } := by simp only [denB]
+    rw [hd]
+    simp only [execB]
+    refine ⟨?_, by simp, by simp⟩
+    refine PostT.same pre ?_ ?_ ?_ ?_ ?_ ?_ ?_ _ _ <;> rfl
+  | cons st rest =>
+    intro w s d pre hwf
+    simp only [Block.structured, Bool.and_eq_true] at hs
+    obtain ⟨p1, o1, n1⟩ := execS_top H cur inH hcur st hs.1 w s d pre (by
+      rw [denB_cons] at hwf
+      cases ho : (denS env cur false st d s).out <;> simp only [ho, Bool.and_eq_true] at hwf
+      · exact hwf.1
+      · exact hwf
+      · exact hwf)
+    rw [denB_cons] at hwf ⊢
+    simp only [execB]
+    cases hb : execS env cur w st with
+    | mk w1 ob =>
+    dsimp only at p1 o1
+    rw [hb] at p1 o1
+    dsimp only at p1 o1
+    cases ho : (denS env cur false st d s).out with
+    | ok =>
+      rw [ho] at o1; subst o1
+      simp only [ho, Bool.and_eq_true] at hwf ⊢
+      exact emitsT_seq pre.ctx p1 (execB_top H cur inH hcur rest hs.2) _ hwf.2
+    | stuck => exact absurd ho n1
+    | raised e =>
+      rw [ho] at o1; subst o1
+      simp only [ho]
+      refine ⟨p1, ?_, ?_⟩ <;> simp
+end
+
+end Sys.Emit
